@@ -207,8 +207,8 @@ def run(ctx):
             from ..query import _resolve_by_eval
             wrong = []
             cases = 0
-            for curv in (-1, 0, 1, 2, 3, 7):
-                for tv in range(curv + 1, curv + 4):
+            for curv in range(-1, 29):       # every level, not a sample: a condition may single out any one
+                for tv in range(curv + 1, min(curv + 4, 30)):
                     env = {strip_site(cur): curv, strip_site(T): tv}
                     got = {}
                     for fld, want_full in (("origin_id", 12), ("segment", 5)):
